@@ -167,11 +167,17 @@ def queries():
     PRIVCASES = [(251, 241, 1, 1, "quick"), (241, 251, 1, 1, "quick"), (250, 241, 1, 1, "quick"), (251, 240, 1, 1, "quick"),
                  (251, 241, 3, 2, "quick"), (65521, 251, 2, 1, "quick"), (65521, 65519, 2, 2, "quick"), (65519, 65521, 3, 2, "quick")]
     # 24-bit moduli (65521*251): no verdict in 900 s on any back end tried -> dropped
-    CRTCASES = [(13, 5, 1, 1, "quick"), (5, 13, 1, 1, "quick"), (251, 241, 1, 1, "thorough"), (241, 251, 2, 1, "thorough")]
+    # equal bit length with p < q is the case where s2 (mod q) must be brought into range mod p
+    CRTCASES = [(13, 5, 1, 1, "quick"), (5, 13, 1, 1, "quick"), (11, 13, 1, 1, "quick"), (13, 11, 1, 1, "quick"),
+                (251, 241, 1, 1, "thorough"), (241, 251, 2, 1, "thorough"), (13, 251, 1, 1, "thorough"), (251, 13, 1, 1, "thorough")]
     I15_CRT_SEAM = ("decred", "reduce", "tmont", "montmul")
+    def crtq(impl, units, P, Qv, pl, ql, tier, extra, tag, unwind):
+        return Q("privcrt-i%d%s-p%d-q%d" % (impl, tag, P, Qv), "C10_privgate.c", units=units,
+                 defs=["-DC10_IMPL=%d" % impl, "-DBR_MAX_RSA_SIZE=64", "-DC10_CRT=1"] + extra + keydefs(P, Qv, pl, ql),
+                 unwind=unwind, backend="kissat", tier=tier, timeout=900 if tier == "thorough" else 240,
+                 desc="br_rsa_i%d_private%s, p=%d, q=%d: CRT recombination s2 + q*((s1-s2)*iq mod p) of (x mod p, x mod q) returns x for every x < p*q (identity stand-in for the two modpow calls at the link seam; all other big-integer code real)" % (impl, tag, P, Qv))
     for impl in (15, 31, 32, 62):
         units = PRIV_UNITS[impl]
-        extra = []
         qs.append(Q("privgate-i%d-bigfactor" % impl, "C10_privgate.c", units=PRIV_UNITS[impl],
                     defs=["-DC10_IMPL=%d" % impl, "-DC10_PL=400", "-DC10_QL=1", "-DC10_NBITS=3208", "-DC10_BIGF=1"],
                     unwind=405, fsarray=410, tier="quick", timeout=240,
@@ -180,22 +186,33 @@ def queries():
             # rsa_i62_priv.c views its uint64_t work area as uint32_t words: no query on the rest finished (> 240 s)
             continue
         if impl == 15:
-            units = [u for u in units if not any(k in u for k in I15_CRT_SEAM)]
-            extra = ["-DC10_STUB_CRT=1"]
-        for (P, Qv, pl, ql, tier) in PRIVCASES:
-            if impl == 15 and P > 255 and tier == "quick":
-                tier = "thorough"
-            qs.append(Q("privgate-i%d-p%d-q%d-PL%d-QL%d" % (impl, P, Qv, pl, ql), "C10_privgate.c", units=units,
-                        defs=["-DC10_IMPL=%d" % impl, "-DBR_MAX_RSA_SIZE=64"] + extra + keydefs(P, Qv, pl, ql),
-                        unwind=((8 if P < 256 and Qv < 256 else 12) if impl == 15 else 34), tier=tier, timeout=900 if tier == "thorough" else 240,
-                        desc="br_rsa_i%d_private, p=%d (%d bytes stored), q=%d (%d bytes stored): returns 1 <=> x < p*q and p, q odd, for every x; modpow%s stubbed at the link seam; BR_MAX_RSA_SIZE=64" % (impl, P, pl, Qv, ql, " and the CRT callees" if impl == 15 else "")))
-        if impl == 15:
+            # (a) the unmodified alignment test ((uintptr_t)mq & 2): every work-area index symbolic, CRT callees stubbed
+            seam_units = [u for u in units if not any(k in u for k in I15_CRT_SEAM)]
+            for (P, Qv, pl, ql, tier) in PRIVCASES:
+                tier = "quick" if (P, Qv, pl) in ((251, 241, 1), (250, 241, 1)) else "thorough"
+                qs.append(Q("privgate-i15-p%d-q%d-PL%d-QL%d" % (P, Qv, pl, ql), "C10_privgate.c", units=seam_units,
+                            defs=["-DC10_IMPL=15", "-DBR_MAX_RSA_SIZE=64", "-DC10_STUB_CRT=1"] + keydefs(P, Qv, pl, ql),
+                            unwind=(8 if P < 256 and Qv < 256 else 12), tier=tier, timeout=900 if tier == "thorough" else 240,
+                            desc="br_rsa_i15_private (real alignment test on the work area), p=%d (%d bytes stored), q=%d (%d bytes stored): returns 1 <=> x < p*q and p, q odd, for every x; modpow and the CRT callees stubbed at the link seam; BR_MAX_RSA_SIZE=64" % (P, pl, Qv, ql)))
+            # (b) alignment case fixed per query through the /repo hook BR_VERIF_RSA_I15_ALIGN: all big-integer code real
+            for al in (0, 1):
+                hook = ["-DBR_VERIF_RSA_I15_ALIGN=%d" % al]
+                tag = "-a%d" % al
+                for (P, Qv, pl, ql, tier) in PRIVCASES:
+                    qs.append(Q("privgate-i15%s-p%d-q%d-PL%d-QL%d" % (tag, P, Qv, pl, ql), "C10_privgate.c", units=units,
+                                defs=["-DC10_IMPL=15", "-DBR_MAX_RSA_SIZE=64"] + hook + keydefs(P, Qv, pl, ql),
+                                unwind=18, tier=tier, timeout=240,
+                                desc="br_rsa_i15_private, work area %s (hook), p=%d (%d bytes stored), q=%d (%d bytes stored): returns 1 <=> x < p*q and p, q odd, for every x; only modpow stubbed at the link seam; BR_MAX_RSA_SIZE=64" % ("4-byte aligned" if al else "not 4-byte aligned", P, pl, Qv, ql)))
+                for (P, Qv, pl, ql, tier) in CRTCASES:
+                    qs.append(crtq(15, units, P, Qv, pl, ql, "quick", hook, tag, 18))
             continue
+        for (P, Qv, pl, ql, tier) in PRIVCASES:
+            qs.append(Q("privgate-i%d-p%d-q%d-PL%d-QL%d" % (impl, P, Qv, pl, ql), "C10_privgate.c", units=units,
+                        defs=["-DC10_IMPL=%d" % impl, "-DBR_MAX_RSA_SIZE=64"] + keydefs(P, Qv, pl, ql),
+                        unwind=34, tier=tier, timeout=900 if tier == "thorough" else 240,
+                        desc="br_rsa_i%d_private, p=%d (%d bytes stored), q=%d (%d bytes stored): returns 1 <=> x < p*q and p, q odd, for every x; modpow stubbed at the link seam; BR_MAX_RSA_SIZE=64" % (impl, P, pl, Qv, ql)))
         for (P, Qv, pl, ql, tier) in CRTCASES:
-            qs.append(Q("privcrt-i%d-p%d-q%d" % (impl, P, Qv), "C10_privgate.c", units=units,
-                        defs=["-DC10_IMPL=%d" % impl, "-DBR_MAX_RSA_SIZE=64", "-DC10_CRT=1"] + keydefs(P, Qv, pl, ql),
-                        unwind=34, backend="kissat", tier=tier, timeout=900 if tier == "thorough" else 240,
-                        desc="br_rsa_i%d_private, p=%d, q=%d: CRT recombination s2 + q*((s1-s2)*iq mod p) of (x mod p, x mod q) returns x for every x < p*q (identity stand-in for the two modpow calls at the link seam; all other big-integer code real)" % (impl, P, Qv)))
+            qs.append(crtq(impl, units, P, Qv, pl, ql, tier, [], "", 34))
     # ---- 5c. toy-size inverse pair with the REAL arithmetic (thorough): n = 13*5, e = 5
     for impl in (31, 32):    # i15: no verdict in 900 s (work-area alignment test makes every index symbolic)
         pre = "i%d" % impl
